@@ -4,6 +4,8 @@
    Declarations whose plan serves parent hashes.  This file: the safety
    theorems, for all histories and fault plans. *)
 From Coq Require Import List NArith Bool.
+From Shovel Require Import Base.Outcome.
+From Shovel Require Model.Client Model.ClientSpec Proofs.BridgeClientTaskP.
 From Shovel Require Import Model.TaskTypes Model.TaskDb Model.Task Model.TaskNode Model.TaskSys
   Model.TaskSpec Model.TaskWitness Proofs.TaskLegacyP Proofs.C03P Proofs.TaskLiveP Proofs.C03LiveP.
 Import ListNotations.
@@ -58,24 +60,61 @@ Theorem below_fork_untouched : forall c H, cfg_ok c -> history_ok H -> forall p0
 Proof. exact below_fork. Qed.
 Print Assumptions below_fork_untouched.
 
-(* LIVENESS.  Full statement (NOT proved): the node may keep answering from
-   older versions (stale cache entries) for up to K answers before it serves
-   only the final chain; then some number of fault-free steps reaches the
-   canonical table. *)
-Definition settled_converges_full : Prop :=
-  forall c H fin K d,
-    cfg_ok c -> t_hashes c = true -> t_deps c = [] -> history_ok H -> In fin H -> hash_identifies H ->
-    (forall b, In b fin -> NoDup (map fst (b_rows b))) ->
-    TaskInvH c H d ->
-    (forall x, In x (d_curs (pv c d)) -> c_num x < clip c (height fin - 1)) ->
-    exists N, forall ss, (N <= length ss)%nat ->
-      at_most_stale (t_hashes c) H fin K (concat ss) ->
-      Forall (fun r => exists o, r = Fin o) (snd (run_steps repaired c ss d)) ->
-      exists g' h, pv c (run_end c ss d) = render c g'
-                   /\ Forall (on_chain true fin) (concat g')
-                   /\ gpos g' = Some (clip c (height fin - 1), h).
+(* BRIDGE to the client model (C07): when the plan fetches headers or blocks,
+   whatever the modelled client's [get] returns is -- after abstraction to the
+   task model's blocks -- internally linked ([chain_ok]: consecutive numbers,
+   every parent the predecessor's hash) with every hash non-empty: the
+   "correctly numbered, internally linked segment" part of [node_ans] is
+   discharged by C07 get_ok_exact_numbers / get_ok_linked for every partition
+   answered by the client.  (That the segment is a segment of a well-formed
+   chain VERSION remains an assumption about the node.) *)
+Theorem client_partition_linked : forall hid rowsf,
+  (forall h, hid h = 0 <-> h = []) -> forall p s l w bs,
+  ClientSpec.fetches p = true -> Client.get p s l w = Ok bs ->
+  chain_ok (map (BridgeClientTaskP.abs hid rowsf) bs) = true
+  /\ Forall (fun b => b_hash b <> 0) (map (BridgeClientTaskP.abs hid rowsf) bs).
+Proof. exact BridgeClientTaskP.get_seg_linked. Qed.
+Print Assumptions client_partition_linked.
 
-(* Proved part: no stale answers (K = 0; the node serves the final chain [ch]).
+(* LIVENESS.  "The source settles" = from some point on the node serves the
+   final chain [ch] and its head exceeds every recorded position.  BEFORE that
+   point anything may have happened -- any number of steps [ss] under any
+   faults, every answer taken from any version of the history (stale cache
+   entries without bound, nested and repeated reorgs): the safety theorems keep
+   TaskInvH ([indexed_in_history_runs]).  FROM that point: one fault-free step
+   unwinds every orphaned batch and indexes the next blocks of the final
+   chain, and at most target - position further steps reach "every indexed
+   block is the final chain's, position = min(head, stop)".  The split of the
+   recorded batches into final-chain batches and orphaned ones is derived
+   ([ghost_split], needs [hash_identifies]).  Since stale answers are finitely
+   many (each cached segment is served at most maxreads times: C08), such a
+   point exists; how many steps pass BEFORE it is not bounded by this theorem. *)
+Theorem indexed_in_history_runs : forall c H, cfg_ok c -> history_ok H -> forall ss d,
+  TaskInvH c H d -> runs_sat (node_ans true H) c ss d ->
+  Forall (TaskInvH c H) (run_dbs c ss d) /\ TaskInvH c H (run_end c ss d).
+Proof. exact hist_runs. Qed.
+Print Assumptions indexed_in_history_runs.
+
+Theorem settled_converges : forall c H ch ss d0,
+  cfg_ok c -> history_ok H -> In ch H -> hash_identifies H ->
+  t_deps c = [] -> (forall b, In b ch -> NoDup (map fst (b_rows b))) -> t_hashes c = true ->
+  TaskInvH c H d0 -> runs_sat (node_ans true H) c ss d0 ->
+  let d := run_end c ss d0 in
+  (forall x, In x (d_curs (pv c d)) -> c_num x < clip c (height ch - 1)) ->
+  (length (d_curs (pv c d)) <= 1000)%nat ->
+  0 < t_start c -> t_start c - 1 < clip c (height ch - 1) ->
+  exists F ln,
+    let x1 := exec_honest F (t_uniq c) (t_hashes c) ch (converge c) d None in
+    r_out x1 = Fin OConverged
+    /\ exists n g', (n <= N.to_nat (clip c (height ch - 1) - ln))%nat
+         /\ pv c (iter (hstepf c ch) n (r_db x1)) = render c g' /\ wf_ghost c g'
+         /\ Forall (on_chain (t_hashes c) ch) (concat g')
+         /\ (exists h, gpos g' = Some (clip c (height ch - 1), h))
+         /\ outside c (iter (hstepf c ch) n (r_db x1)) = outside c d.
+Proof. exact settled_full_lemma. Qed.
+Print Assumptions settled_converges.
+
+(* The same from an explicitly split state (the node serves the final chain [ch]).
    The batches [p] below the fork are blocks of the final chain, the batches
    [q] above it are orphaned (at most 1000 of them: the reorg bound of one
    step), the head exceeds every recorded position.  Then ONE fault-free step
